@@ -48,7 +48,7 @@ def generate(rng, tier="quick"):
     for u in world["docs"]:
         W.all_ref_strings(world["docs"][u], refs)
         refs.append(u)
-    refs += ["#", "#/definitions/d0", "d1.json#/definitions/d0", "sub/d2.json"]
+    refs += ["#", "#/definitions/n0", "d1.json#/definitions/n0", "sub/d1.json#/definitions/n0", "sub/d2.json"]
     ninst = len(world["instances"])
     ops = []
     for _ in range(nops):
